@@ -10,12 +10,12 @@ import (
 
 // GenOpts biases the swarm configuration.
 type GenOpts struct {
-	ForceCache    bool // key caching on
+	ForceCache     bool // key caching on
 	NoSessionCache bool
-	SmallCaps     bool // bounded caches with tiny capacities (miss / evict / reload paths run)
-	AllowTinyLFU  bool
-	ShortExpiry   bool
-	NoSimple      bool // only bounded (evicting) key caches
+	SmallCaps      bool // bounded caches with tiny capacities (miss / evict / reload paths run)
+	AllowTinyLFU   bool
+	ShortExpiry    bool
+	NoSimple       bool // only bounded (evicting) key caches
 }
 
 var (
